@@ -1256,7 +1256,7 @@ def solve_ivp(fun, t_span, y0, method='RK45', t_eval=None, dense_output=False,
     callbacks = list(options.get("callbacks", []))
     if "max_step" in options or "min_step" in options:
         def __step_cb(ode_sys):
-            ode_sys.dt = D.ar_numpy.clip(ode_sys.dt, min=min_step, max=max_step)
+            ode_sys.dt = D.ar_numpy.sign(ode_sys.dt) * D.ar_numpy.clip(D.ar_numpy.abs(ode_sys.dt), min=min_step, max=max_step)
         callbacks.append(__step_cb)
     
     integration_options = dict(callback=callbacks, events=events, eta=options.get("show_prog_bar", False))
@@ -1266,7 +1266,10 @@ def solve_ivp(fun, t_span, y0, method='RK45', t_eval=None, dense_output=False,
         y_res = D.ar_numpy.transpose(ode_system.y, axes=[*range(1, len(ode_system.y.shape)), 0])
     else:
         t_eval = D.ar_numpy.sort(t_eval)
-        if t_eval[0] < t_span[0] or t_eval[-1] > t_span[1]:
+        if t_span[1] < t_span[0]:
+            # backward span: visit the evaluation times in decreasing order
+            t_eval = t_eval[::-1]
+        if D.ar_numpy.min(t_eval) < min(t_span) or D.ar_numpy.max(t_eval) > max(t_span):
             raise ValueError(f"Expected `t_eval` to be in the range [{t_span[0]}, {t_span[1]}]")
         t_res = []
         y_res = []
